@@ -499,7 +499,7 @@ func mergeStats(id, tier string, seed uint64, c propCfg, runDir string) (map[str
 	}
 	var evals, distinct int64
 	var rules []string
-	var samples []interface{}
+	samples := []interface{}{}
 	subOut := map[string]interface{}{}
 	totalCounts := map[string]int64{}
 	for _, name := range order {
